@@ -92,7 +92,7 @@ def main():
         "hooks": {
             "guard": "YAKUSHIMA_VERIF",
             "enable": "tools/vlib.py build_harness compiles harness/*.cpp with -DYAKUSHIMA_VERIF -I/repo/include (ASan+UBSan)",
-            "baseline_off_cmd": "cmake --build /repo/_build -- -k 0 ; ctest --test-dir /repo/_build -j8 --timeout 900",
+            "baseline_off_cmd": "cmake -G Ninja -S /repo -B /repo/_build && cmake --build /repo/_build -- -k 0 ; ctest --test-dir /repo/_build -j8 --timeout 900",
             "source_commits": hooks,
             "add_only": True,
         },
